@@ -96,6 +96,7 @@ contract(M + "Step.run", props=P,
              "step-is-not-an-all-hook-target": "True",
          },
          callsites={"runner.step_registry.find_match": "abs:find_match"},
+         locals={"current_scenario": "opt:ref:Scenario"},
          loops=[Loop(broadcast=("abs:fmt.match", "match")), Loop(broadcast=("abs:fmt.result", "result")),
                 Loop(broadcast=("abs:fmt.match", "match")), Loop(broadcast=("abs:fmt.result", "result"))],
          modifies=["G_bad", "G_nhooks", "G_hook_name", "G_hook_arg", "G_hook_out", "G_hook_err", "G_ncalls", "G_calls", "G_nev", "G_ev_kind",
